@@ -7,19 +7,31 @@ import runner
 ID = "C20"
 LEAN_MODULES = ["Properties.C20"]
 THEOREMS = ["EngineModel.Properties.C20." + t for t in [
-    "C20_trim_infix", "C20_trim_keeps_interior", "C20_throw_only_if", "C20_reject_of", "C20_reject_iff",
-    "C20_empty", "C20_interior_unchanged", "C20_first_index", "C20_tempo_kept", "C20_bracket",
-    "C20_sorted", "C20_idempotent", "C20_idempotent_or_overflow"]]
+    # A. every arithmetic (incl. the Float instance the driver runs)
+    "C20_defined", "C20_ok_or_invalid", "C20_trim_infix", "C20_gen_first_index", "C20_gen_interior_unchanged",
+    "C20_gen_out_idx32", "C20_gen_reject_of", "C20_trim_spec", "C20_float_ceil32Ok", "C20_float",
+    # B. exact rationals, about the input grid (through the Spec window)
+    "C20_rat_laws", "C20_window_spec", "C20_overlap_iff", "C20_reject_out_of_range", "C20_reject_iff",
+    "C20_accept_of_overlap", "C20_empty", "C20_first_index", "C20_interior_kept", "C20_interior_inside",
+    "C20_interior_unchanged", "C20_tempo_kept", "C20_bracket", "C20_sorted", "C20_idempotent",
+    # C. witnesses
+    "C20_defined_counterexample", "C20_accept_of_overlap_counterexample", "C20_former_ub_witnesses"]]
 ASSUMPTIONS = [
-    "theorems are over exact rationals (Num instance ratNum); the C++ is tied bit-for-bit to the same generic "
-    "Lean code instantiated with hardware Float; floating-point rounding error itself is not bounded by a theorem",
-    "int32 index arithmetic and the int32 cast of ceil() are checked operations in the Model (ub outcomes); "
-    "the in-domain generators keep |index| <= 10^6 and tempi in [50, 10^6] samples per beat",
+    "the quantitative clauses (bracket, tempo, idempotence, exact rejection set) are theorems over exact rationals "
+    "(instance ratNum, Lean core Rat, executable); the C++ is tied bit-for-bit to the same generic Lean code "
+    "instantiated with hardware Float, and Float is compared with the exact-rational run of the same code on the "
+    "same (dyadic) inputs within a relative tolerance; floating-point rounding error itself is not bounded by a theorem",
+    "the comparison-only clauses (totality / no undefined behaviour, first index -4, interior positions, the two "
+    "unconditional rejections) are theorems for every arithmetic and are instantiated for the Float instance "
+    "(C20_float); trim = window holds for any comparisons satisfying OrdLaws (proved for the rationals; the IEEE "
+    "comparisons satisfy them but Lean's Float is opaque, so this is not a theorem about floatNum)",
+    "beat indices are int32_t (Idx32) and the sample count int64_t, as in the C++ signature; the theorems that "
+    "mention the window assume a positive sample count",
 ]
 MANIFEST = dict(
-    text="Theorems over exact rationals about the Model of normalize_beatgrid (the same generic Lean code the driver runs over hardware floats): first index -4, last marker in [n, n + beat), first/last tempo kept, interior markers unchanged, result strictly increasing, idempotent, exact rejection set — for all strictly increasing grids of any length. The C++ is tied bit-for-bit to the Float instance on generated grids, applied twice, and a direct oracle states the property on the implementation's own answers.",
-    note="Trusted: Lean kernel (+ Mathlib's rationals / Int.ceil); floating-point rounding itself is not bounded by a theorem (tie tolerance 1e-9 relative); int32 index arithmetic is a checked operation of the Model.",
-    technique='Lean 4 theorems over Q about a generic executable model + bit-exact differential run over Float',
+    text="Theorems about the Model of normalize_beatgrid, generic over its arithmetic: for every arithmetic (hence for the hardware-Float instance tied bit for bit to the C++) normalisation of a grid with int indices returns a grid or throws invalid_argument (C20_defined: no undefined behaviour - true since the fix that moved the index arithmetic to 64 bits and range-checks the double->int conversion), first index -4, interior positions untouched; over exact rationals, stated about the input grid through the Spec window (trim = window is a theorem): a strictly increasing grid is accepted iff >= 2 of its markers overlap the track, beat -4 lies before the second window marker, the track extends beyond beat -4 and the last index is representable (C20_reject_iff, C20_overlap_iff, C20_accept_of_overlap); last marker in [n, n + beat), first/last tempo kept, interior markers of the input inside the track kept and nothing else, result strictly increasing, idempotent - all grids, any length. Tie: C++ vs Float instance bit for bit (applied twice), C++ vs the exact-rational run within 1e-9 relative, Python oracle written from the property text on the implementation's own answers, extreme-index / extreme-sample-count stream for totality.",
+    note="Trusted: Lean kernel (+ Mathlib's order/field lemmas on Rat); floating-point rounding itself is not bounded by a theorem (tie tolerance 1e-9 relative, rounding-boundary cases counted in the evidence).",
+    technique='Lean 4 theorems (generic over the arithmetic + exact rationals) about an executable model + bit-exact differential run over Float + Float-vs-Q comparison',
     ref='6/C20')
 TRUSTED_EXTRA = []
 
@@ -183,19 +195,127 @@ def canon(s):
     return " ".join(out)
 
 
+I32MIN, I32MAX = -2 ** 31, 2 ** 31 - 1
+
+
+def gen_extreme(rng, tier):
+    """Totality stream: any int32 index, any positive tempo, any int64 sample count (the property's
+    quantifier: 'any starting index, any tempo, all sample counts'); strictly increasing grids."""
+    fixed = [
+        (2 ** 31, [(-4, 0.0), (2147483644, 2147483648.0)]),   # index[1] - index[0] overflows int
+        (1000, [(2147483646, 0.0), (2147483647, 400.0)]),     # 4 + index[0] overflows int
+        (1000, [(-2147483648, 0.0), (2147483647, 400.0)]),
+        (10 ** 15, [(0, 0.0), (1, 1e-9)]),                    # ceil() beyond int32
+        (3 * 10 ** 9, [(0, 0.0), (2147483647, 2147483647.0)]),  # index += adjustment overflows int
+        (2 ** 62, [(0, 0.0), (4, 88200.0)]),
+        (-5, [(0, -10.0), (4, 5.0)]), (0, [(0, -10.0), (4, 5.0)]),
+        (-2 ** 63, [(0, -10.0), (4, 5.0)]), (2 ** 63 - 1, [(-4, -4.0), (0, 0.5)]),
+        (1000, [(2147483640, -100.0), (2147483644, 300.0), (2147483647, 600.0)]),
+    ]
+    cases = list(fixed)
+    k = 150 if tier == "quick" else 6000
+    for _ in range(k):
+        m = rng.choice([2, 2, 3, 5, 9])
+        idx = rng.choice([I32MIN, I32MIN + rng.randrange(0, 10), I32MAX - rng.randrange(0, 200), -4, 0,
+                          rng.randrange(I32MIN, I32MAX)])
+        spb = rng.choice([1e-9, 1e-3, 0.5, 1.0, 22050.0, 1e9, 1e15, rng.uniform(1e-6, 1e6)])
+        off = rng.choice([0.0, -spb * 8, -1e18, 1e12, rng.uniform(-1e9, 1e9)])
+        g = []
+        for _ in range(m):
+            g.append((idx, off))
+            step = rng.choice([1, 1, 4, 2 ** 20, 2 ** 30, 2 ** 31, 2 ** 32 - 1, rng.randrange(1, 2 ** 32)])
+            if idx + step > I32MAX:
+                break
+            idx += step
+            off2 = off + step * spb
+            if not off2 > off:
+                break
+            off = off2
+        if len(g) < 2:
+            continue
+        n = rng.choice([1, 1000, 2 ** 31, 2 ** 53 + 1, 2 ** 62, 2 ** 63 - 1, 0, -1, -2 ** 63,
+                        int(min(max(g[-1][1], -9e18), 9e18)), rng.randrange(1, 2 ** rng.randrange(2, 63))])
+        cases.append((n, g))
+    return cases
+
+
+def parse_q(s):
+    t = s.split()
+    if not t or t[0] != "ok":
+        return None
+    k = int(t[1])
+    out = []
+    for j in range(k):
+        a, b = t[3 + 2 * j].split("/")
+        out.append((int(t[2 + 2 * j]), Fraction(int(a), int(b))))
+    return out
+
+
+def near_integer(q, eps=Fraction(1, 10 ** 6)):
+    return abs(q - round(q)) <= eps * max(1, abs(q))
+
+
+def rounding_boundary(n, g):
+    """True when the exact number of beats to the end is (relatively) within 1e-6 of an integer, or a
+    marker / beat -4 sits within that distance of the end: then Float may legitimately take the other
+    side of ceil() or of the 'track ends at or before beat -4' test."""
+    t = spec_trim(n, g)
+    if len(t) < 2 or t[0][0] == t[1][0] or t[-1][0] == t[-2][0]:
+        return False
+    tl = tempo(t[-2], t[-1])
+    if tl == 0:
+        return False
+    if near_integer((n - Fraction(t[-1][1])) / tl):
+        return True
+    if n > 2 ** 53:   # the int64 -> double conversion of the sample count rounds
+        return True
+    return False
+
+
+def cmp_float_q(n, g, hres, qres):
+    """The implementation's (Float) answer against the exact-rational run of the same Model."""
+    hq = parse(hres)
+    qq = parse_q(qres)
+    if qres.startswith("bad-op"):
+        return "skip"
+    if hq is None and qq is None:
+        if hres.split()[:2] == qres.split()[:2]:
+            return "agree"
+        return "class"
+    if (hq is None) != (qq is None):
+        return "class"
+    if len(hq) != len(qq) or [i for i, _ in hq] != [i for i, _ in qq]:
+        return "index"
+    for (_, a), (_, b) in zip(hq, qq):
+        if a != a or a in (float("inf"), float("-inf")):
+            return "offset"
+        if not close(Fraction(a), b):
+            return "offset"
+    return "agree"
+
+
 def tie(ctx):
     rng = random.Random(ctx.seed * 104729 + 20)
     cases = gen_cases(rng, ctx.tier)
-    # out-of-domain (int overflow / cast range) points: tie only
-    ood = [(1000, [(2147483646, 0.0), (2147483647, 400.0)]),
-           (1000, [(-2147483648, 0.0), (2147483647, 400.0)]),
-           (10 ** 15, [(0, 0.0), (1, 1e-9)]),
-           (1000, [(0, 0.0), (0, 400.0)]),
-           (1000, [(0, float("nan")), (4, 400.0)])]
-    lines = [fmt(n, g) for (n, g) in cases + ood]
+    n_in = len(cases)
+    extreme = gen_extreme(rng, ctx.tier)
+    # not strictly increasing / NaN: tie only (the Model must predict whatever the code does)
+    ood = [(1000, [(0, 0.0), (0, 400.0)]),
+           (1000, [(0, float("nan")), (4, 400.0)]),
+           (1000, [(4, 0.0), (0, 400.0)]),
+           (1000, [(0, 400.0), (4, 0.0)]),
+           (1000, [(0, 0.0), (4, float("inf"))])]
+    allc = cases + extreme + ood
+    lines = [fmt(n, g) for (n, g) in allc]
     scripts = runner.shard(lines, NCPU)
     hout = [o for (outs, _) in runner.run_harness(scripts, stateless=True) for o in outs]
     mout = [o for outs in runner.run_model(scripts) for o in outs]
+    # exact-rational run of the same Model on the same inputs, and the Spec window
+    nq = len(cases) + len(extreme)
+    qlines = [l.replace("bg.norm", "bg.normq", 1) for l in lines[:nq]]
+    wlines = [l.replace("bg.norm", "bg.window", 1) for l in lines[:nq]]
+    qout = [o for outs in runner.run_model(runner.shard(qlines, NCPU)) for o in outs]
+    wout = [o for outs in runner.run_model(runner.shard(wlines, NCPU)) for o in outs]
     # second application (idempotence) on the implementation's own outputs
     lines2, idx2 = [], []
     for i, (n, g) in enumerate(cases):
@@ -204,6 +324,7 @@ def tie(ctx):
             lines2.append(fmt(n, out))
             idx2.append(i)
     h2 = {}
+    extra = []
     if lines2:
         sc2 = runner.shard(lines2, NCPU)
         o2 = [o for (outs, _) in runner.run_harness(sc2, stateless=True) for o in outs]
@@ -211,13 +332,17 @@ def tie(ctx):
         for k, i in enumerate(idx2):
             h2[i] = o2[k]
             if canon(o2[k]) != canon(m2[k]):
-                hout.append(o2[k]); mout.append(m2[k]); lines.append(lines2[k])
+                extra.append((lines2[k], o2[k], m2[k]))
     divergences, violations = [], []
-    hist = {"ok": 0, "reject": 0, "ub": 0, "end_on_marker": 0, "ood": len(ood)}
+    hist = {"ok": 0, "reject": 0, "ub": 0, "end_on_marker": 0, "extreme": len(extreme), "ood": len(ood),
+            "extreme_ok": 0, "extreme_reject": 0, "fq_agree": 0, "fq_rounding_boundary": 0,
+            "window_checked": 0, "markers_2": 0, "markers_3_8": 0, "markers_9_64": 0}
     distinct = set()
     for i in range(len(lines)):
         if canon(hout[i]) != canon(mout[i]):
             divergences.append({"input": lines[i][:300], "impl": hout[i][:200], "model": mout[i][:200]})
+    for (l, a, b) in extra:
+        divergences.append({"input": l[:300], "impl": a[:200], "model": b[:200]})
     for i, (n, g) in enumerate(cases):
         why = oracle(n, g, hout[i], h2.get(i, ""))
         if why:
@@ -234,14 +359,67 @@ def tie(ctx):
             hist["ub"] += 1
         if any(Fraction(o) == n for (_, o) in g):
             hist["end_on_marker"] += 1
+        hist["markers_2" if len(g) <= 2 else "markers_3_8" if len(g) <= 8 else "markers_9_64"] += 1
+    # totality (C20_defined) on the implementation's own outcomes: a grid or invalid_argument
+    for j, (n, g) in enumerate(extreme):
+        i = n_in + j
+        r = hout[i]
+        if r.startswith("ok"):
+            hist["extreme_ok"] += 1
+            out = parse(r)
+            bad = None
+            if out[0][0] != -4:
+                bad = "first marker has index %d, not -4" % out[0][0]
+            elif any(not (I32MIN <= a <= I32MAX) for a, _ in out):
+                bad = "result index outside int32"
+            elif any(out[k][0] >= out[k + 1][0] for k in range(len(out) - 1)):
+                bad = "result indices not strictly increasing"
+            if bad:
+                violations.append({"tag": "oracle-extreme", "signature": None,
+                                   "header": {"kind": "input", "what": bad}, "body": [lines[i], "impl: " + r]})
+        elif r.startswith("throw invalid_argument"):
+            hist["extreme_reject"] += 1
+        else:
+            violations.append({"tag": "oracle-totality", "signature": None,
+                               "header": {"kind": "input",
+                                          "what": "normalisation of a strictly increasing grid neither returned a "
+                                                  "grid nor threw invalid_argument (%s)" % r[:60]},
+                               "body": [lines[i], "impl: " + r]})
+    # Float (implementation) vs exact rationals (the instance the theorems are about)
+    for i in range(nq):
+        n, g = allc[i]
+        v = cmp_float_q(n, g, hout[i], qout[i])
+        if v in ("agree", "skip"):
+            hist["fq_agree"] += 1
+        elif rounding_boundary(n, g) or i >= n_in:
+            # extreme stream: huge magnitudes lose all precision; only the outcome alphabet is compared there
+            hist["fq_rounding_boundary"] += 1
+        else:
+            violations.append({"tag": "float-vs-rational", "signature": None,
+                               "header": {"kind": "input",
+                                          "what": "the implementation's answer differs from exact-rational "
+                                                  "normalisation beyond rounding (%s)" % v},
+                               "body": [lines[i], "impl: " + hout[i][:300], "exact: " + qout[i][:300]]})
+        # the Python oracle's trimming against the Lean Spec `window` (positive sample counts)
+        if n > 0 and i < n_in and all(g[k][1] < g[k + 1][1] for k in range(len(g) - 1)):
+            w = parse_q(wout[i])
+            t = spec_trim(n, g)
+            hist["window_checked"] += 1
+            if w is None or [(a, Fraction(b)) for a, b in t] != w:
+                divergences.append({"input": wlines[i][:300], "impl": "python spec_trim %r" % (t[:4],),
+                                    "model": wout[i][:200]})
     return {
         "ok": not divergences and not violations,
-        "evaluations": len(lines),
+        "evaluations": len(lines) + len(lines2) + 2 * nq,
         "distinct_nontrivial": len(distinct),
         "rule": "seeded strictly-increasing grids of 2..64 markers (varying start index, tempo changes, markers before 0 "
                 "and beyond the end, track end exactly on a marker in ~25% of cases) plus hand-picked boundary classes; "
                 "C++ normalize_beatgrid vs Lean Beatgrid.normalize over hardware Float, bit for bit, applied twice; "
-                "non-trivial = distinct (n, grid) accepted by the implementation",
+                "the same inputs through the exact-rational instance (Float-vs-Q, 1e-9 relative; cases whose exact "
+                "beat count is within 1e-6 of an integer are counted as rounding boundaries); an extreme stream "
+                "(any int32 index, tempi 1e-9..1e15, sample counts over all of int64) for totality; the Python "
+                "oracle's trimming cross-checked with the Lean Spec window; non-trivial = distinct (n, grid) accepted "
+                "by the implementation",
         "samples": [lines[0][:200], lines[12][:200] if len(lines) > 12 else lines[-1][:200]],
         "histograms": hist,
         "divergences": divergences[:20],
